@@ -35,6 +35,10 @@ ENGINES = {
         "dir": "engines/kernels", "bin": "vkern",
         "configs": {"default": []},
     },
+    "sched": {
+        "dir": "engines/sched", "bin": "vsched",
+        "configs": {"default": []},
+    },
     "b3sum": {
         "dir": "engines/b3sum", "bin": "vb3",
         "configs": {"default": []},
@@ -100,6 +104,8 @@ PLANS = {
     "C05": {"level": "exploration", "runs": simple("kernels", "default")},
     "C07": {"level": "exploration", "runs": simple("kernels", "default")},
     "C06": {"level": "model_checking", "runs": c06_runs},
+    "C08": {"level": "model_checking", "runs": simple("sched", "default")},
+    "C18": {"level": "model_checking", "runs": simple("sched", "default")},
     "C09": {"level": "exploration", "runs": simple("core", "asm-default")},
     "C10": {"level": "model_checking", "runs": simple("core", "asm-default")},
     "C12": {"level": "fault_enumeration", "runs": simple("b3sum", "default")},
